@@ -3396,6 +3396,21 @@ static size_t ZSTD_buildSeqStore(ZSTD_CCtx* zc, const void* src, size_t srcSize)
                         (unsigned long)nbExternalSeqs
                     );
                     lastLLSize = blockCompressor(ms, &zc->seqStore, zc->blockState.nextCBlock->rep, src, srcSize);
+                    /* The parsers below btopt only maintain rep[0] and rep[1] : rep[2] still is the previous block's.
+                     * They never read it, but the next block may come from the producer again, and the repcode search
+                     * of its sequences reads all three entries : replay this block on the history, as the decoder will. */
+                    {   repcodes_t history;
+                        U32 const nbSeq = (U32)(zc->seqStore.sequences - zc->seqStore.sequencesStart);
+                        U32 const longLitLenIdx = zc->seqStore.longLengthType == ZSTD_llt_literalLength ? zc->seqStore.longLengthPos : nbSeq;
+                        U32 idx;
+                        ZSTD_memcpy(&history, zc->blockState.prevCBlock->rep, sizeof(history));
+                        for (idx = 0; idx < nbSeq; ++idx) {
+                            seqDef const* const seq = zc->seqStore.sequencesStart + idx;
+                            U32 const ll0 = (seq->litLength == 0) && (idx != longLitLenIdx);
+                            ZSTD_updateRep(history.rep, seq->offBase, ll0);
+                        }
+                        zc->blockState.nextCBlock->rep[2] = history.rep[2];
+                    }
             }   }
         } else {   /* not long range mode and no external matchfinder */
             ZSTD_blockCompressor const blockCompressor = ZSTD_selectBlockCompressor(
